@@ -53,7 +53,9 @@ PARTIAL = ['edge_inputs_spec_partial / likelihood_reads_written_partial / likeli
            'likelihood_deterministic_partial hold under goodVine (every edge: parents[0] carries the smaller '
            'conditioned variable, parents[1] the larger); the hypothesis FAILS on vines the code builds '
            '(edge_inputs_counterexample, likelihood_reads_written_counterexample, '
-           'likelihood_deterministic_counterexample: direct vine 3-2-0-1); goodVine is evaluated on every real vine',
+           'likelihood_deterministic_counterexample: direct vine 3-2-0-1); goodVine is evaluated on every real vine; '
+           'Props/C17b PROVES goodVine for every center vine, every vine with d <= 3 or truncation <= 2 and the second tree '
+           'of any vine built by the C16 construction model (covered_vine_good), making the four clauses unconditional there',
            'sample_shape: under the rooted-spanning-tree certificate rootedOK, evaluated by the driver on every real '
            'first tree and start node (that every tree can be rooted anywhere is not proved in general)',
            'two_column_sampling_partial: the transform is proved; statistical agreement (marginals, Kendall tau) is '
